@@ -1,5 +1,6 @@
 import JsonVerif.Lemmas.Serde
 import JsonVerif.Lemmas.DeSer
+import JsonVerif.Lemmas.DePerm
 /-!
 # C16 — serde: typed data round-trips through Value and agrees with serde_json
 
@@ -102,6 +103,22 @@ theorem C16_integers (w : IntW) (i : Int) (h1 : w.lo ≤ i) (h2 : i ≤ w.hi) :
 theorem C16_map_key_round_trip (k : KTy) (kd : SData) (h : HasKey k kd) :
     ∃ n, serKey kd = .ok n ∧ deKey k n = .ok kd :=
   key_rt k kd h
+
+/-- **Blind to member order** (towards the third sentence of the property: serde_json renders
+    structs through a sorted map, so its rendering lists the members in another order): for every
+    descriptor without map types, a successful typed deserialization returns the same datum on
+    every value equal to the given one up to permutation of object members at any depth (`PermEq`,
+    the specification relation of C15). Map types are left out because a map datum is a list in the
+    model while a Rust map has no order. -/
+theorem C16_member_order_blind (env : FEnv) (t : DTy) (hn : NoMap t) (v w : JValue) (d : SData)
+    (hp : PermEq v w) (h : de env t v = .ok d) : de env t w = .ok d :=
+  de_perm env t hn v w d hp h
+
+/-- … hence the round trip survives any reordering of the members of what `to_value` built. -/
+theorem C16_round_trip_reordered (env : FEnv) (t : DTy) (hn : NoMap t) (d : SData) (h : HasTy env t d) :
+    ∃ v, ser d = .ok v ∧ ∀ w, PermEq v w → de env t w = .ok d := by
+  obtain ⟨v, hs, hd⟩ := de_ser env t d h
+  exact ⟨v, hs, fun w hp => de_perm env t hn v w d hp hd⟩
 
 /-- Non-finite floats are outside `HasTy`: they serialize to `null`, which no float type reads. -/
 theorem C16_non_finite (env : FEnv) :
